@@ -31,8 +31,9 @@ def main():
             meta = {"summary": f"(meta.json unreadable: {e})"}
         out = VERIF / "seeded" / sid
         out.mkdir(parents=True, exist_ok=True)
-        shutil.copy(d / "patch.diff", out / "patch.diff")
-        shutil.copy(d / "demo_test.py", out / "demo_test.py")
+        if not (out / "patch.diff").exists():  # never overwrite: a patch may have been re-based onto a later /repo HEAD by hand
+            shutil.copy(d / "patch.diff", out / "patch.diff")
+            shutil.copy(d / "demo_test.py", out / "demo_test.py")
         m = {
             "id": sid,
             "property": prop,
